@@ -102,7 +102,7 @@ def in_scope(text_units, train_units):
     return sum(len(u) for u in text_units) + max(0, len(text_units) - 1) >= 3
 
 
-def make_case(ck, text_units, train_units, ti, di, family):
+def make_case(ck, text_units, train_units, ti, di, family, before=None):
     text = gens.lines(text_units)
     train = None if train_units is None else gens.lines(train_units)
     thr, dep = THR[ti], DEP[di]
@@ -113,6 +113,11 @@ def make_case(ck, text_units, train_units, ti, di, family):
         return (r, bool(w[1]))
 
     def impl():
+        if before is not None:
+            # a history: another text segmented first with the SAME training text and dependency (any threshold); the
+            # call under test must answer as if it were the first one
+            call_impl(tp.segment, gens.lines(before), None if train is None else list(train), THR[1 - ti], dep)
+            call_impl(tp.segment, gens.lines(before), None if train is None else list(train), thr, dep)
         return call_impl(tp.segment, list(text), None if train is None else list(train), thr, dep)
 
     def oracle(out):
@@ -169,6 +174,15 @@ def main():
         tr = None if mode == 0 else (tu if mode == 1 else gens.random_text(rng, sub)[0])
         cases.append(make_case(ck, tu, tr, rng.randint(0, 1), rng.randint(0, 2),
                                'random-' + ['ascii1', 'prefixy', 'ipa', 'marker'][k % 4]))
+    # call histories: a text full of pairs the training text never shows is segmented first with the same training text
+    for k in range(200 if ck.thorough else 40):
+        sub = ['a', 'b', 'c', 'd'] if k % 2 == 0 else ['uː', 'dʒ', 'ʌ', 'ŋ']
+        tr = gens.random_text(rng, sub[:3], nutts=rng.randint(2, 6))[0]
+        tu = gens.random_text(rng, sub[:3], nutts=rng.randint(1, 5))[0]
+        before = [[rng.choice(sub) for _ in range(rng.randint(2, 8))] for _ in range(rng.randint(1, 4))] + [[sub[3], sub[0], sub[3], sub[1], sub[2], sub[3]]]
+        c = make_case(ck, tu, tr, k % 2, (k // 2) % 3, 'history-same-train', before=before)
+        c['desc']['segmented_before'] = gens.lines(before)
+        cases.append(c)
     # a training text that is given but holds no bigram (no line, one blank line, one unit): every pair of the
     # text is then unseen (dependency 0); it must not be mistaken for "no training text"
     for tu in [t for t in gens.exhaustive_texts(['a', 'b'], 4, 2)] + [gens.random_text(rng, ['a', 'b', 'c'], nutts=rng.randint(1, 5))[0] for _ in range(20)]:
